@@ -19,12 +19,14 @@ def _ratio(u_sub, u_parent):
     return datetime.timedelta(minutes=u_sub).total_seconds() / datetime.timedelta(minutes=u_parent).total_seconds()
 
 
-def make_sub(tmpdir, d, absence, how, unit_min, tag, post_insert=None):
+def make_sub(tmpdir, d, absence, how, unit_min, tag, post_insert=None, backward=False):
     """a sub-project of pure duration d (one task, one worker), simulated as requested and saved"""
     sp = {"tasks": [{"name": "S0", "work": float(d)}], "links": [], "unit_min": unit_min,
           "teams": [{"name": "TM0", "targets": [0], "workers": [{"name": "SW0", "skills": {"S0": 1.0}, "cost": 1.0}]}]}
     m = S.build(sp)
-    if how == "success":
+    if how == "success" and backward:
+        m.project.backward_simulate(max_time=d + len(absence) + 20, absence_time_list=list(absence))  # the sub-project was planned backwards (logs reversed into forward reading)
+    elif how == "success":
         m.project.simulate(max_time=d + len(absence) + 20, absence_time_list=list(absence))
     elif how == "failure":
         m.project.simulate(max_time=max(0, d - 1), absence_time_list=list(absence))
@@ -36,7 +38,20 @@ def make_sub(tmpdir, d, absence, how, unit_min, tag, post_insert=None):
 
 
 def parent_spec(position, path, u_parent, team_targets_sub=False):
+    if position.endswith("-on-component"):
+        # the sub-project task belongs to a component that has to be carried into a workplace before the task can start (the task itself needs no machine)
+        sp = parent_spec(position[: -len("-on-component")], path, u_parent, team_targets_sub)
+        si = [i for i, t in enumerate(sp["tasks"]) if t.get("sub") is not None][0]
+        sp["components"] = [{"name": "C0", "tasks": [si], "space": 1.0}]
+        sp["workplaces"] = [{"name": "WP0", "cap": 1.0, "targets": [si], "facilities": [{"name": "F0", "skills": {"SUB": 1.0}}]}]  # (a workplace only takes a component in when it is equipped for the task)
+        return sp
     sub = {"name": "SUB", "work": 1.0, "sub": {"file_path": path}}
+    if position == "unstaffed":
+        return {"tasks": [sub], "links": [], "unit_min": u_parent, "teams": []}  # a parent project without any worker
+    if position == "after-auto-pred-beside-long":
+        # L0 keeps the only worker busy from step 0; A0 (automatic, 2 steps) -FS-> SUB: SUB becomes READY in a step in which nobody is free
+        return {"tasks": [{"name": "L0", "work": 8.0}, {"name": "A0", "work": 2.0, "auto": True}, sub], "links": [[1, 2, "FS"]], "unit_min": u_parent,
+                "teams": [{"name": "TM0", "targets": [0], "workers": [{"name": "W0", "skills": {"L0": 1.0}, "cost": 1.0}]}]}
     if position == "alone":
         tasks, links, tg = [sub], [], []
     elif position == "after-pred":
@@ -86,7 +101,7 @@ def one(tmpdir, d, absence, how, remove, u_sub, u_parent, position, tag, prior=N
                 done += 1
             T0 += 1
         post_insert = [T0 - 1, T0]
-    path, sub_time, sub_status = make_sub(tmpdir, d, absence, how, u_sub, tag, post_insert)
+    path, sub_time, sub_status = make_sub(tmpdir, d, absence, how, u_sub, tag, post_insert, backward=(extra == "sub-backward"))
     if post_insert:
         absence = tuple(absence) + tuple(post_insert)
         sub_time = T0 + 2
@@ -240,7 +255,7 @@ def one(tmpdir, d, absence, how, remove, u_sub, u_parent, position, tag, prior=N
     want = int(math.ceil(dur * _ratio(u_sub, u_parent) - 1e-9))
     log = [int(s) for s in t.state_record_list]
     ks = [k for k, s in enumerate(log) if s == S.T_WORKING]
-    start = 2 if position == "after-pred" else 0
+    start = 2 if position in ("after-pred", "after-pred-on-component", "after-auto-pred-beside-long", "after-auto-pred-beside-long-on-component") else 0
     if position == "after-ss-pred-extend":
         start = 1
     if position == "mixed-inputs":
@@ -396,6 +411,14 @@ def items(tier):
             out.append((d, (), "success", True, us, up, "two-tails", None, False, None, "backward-due"))
             for nchain in (3, 8, 9, 11):
                 out.append((d, (), "success", False, us, up, "ff-chain", None, False, None, str(nchain)))
+        for us, up in ((1, 1), (3, 2), (2, 3)):
+            for pos in ("alone-on-component", "after-pred-on-component", "beside-on-component", "unstaffed", "unstaffed-on-component", "after-auto-pred-beside-long", "after-auto-pred-beside-long-on-component"):
+                out.append((d, (), "success", True, us, up, pos, None))
+        # the saved sub-project result comes from a backward run whose calendar also names steps beyond its end
+        for ab in ((1,), (0, d + 9), (1, d + 3, d + 4), (d + 2,)):
+            for remove in (True, False):
+                for us, up in ((1, 1), (3, 2)):
+                    out.append((d, ab, "success", remove, us, up, "alone" if us == 1 else "after-pred", None, False, None, "sub-backward"))
         for how in ("failure", "never"):
             for remove in (True, False):
                 out.append((d, (), how, remove, 1, 1, "alone", None))
